@@ -15,11 +15,12 @@ func init() { register("C05", C05) }
 // structural mutators: a candidate is stored in a variable (web of `chosen`),
 // a boolean flag (web of `flag`) records that it passed its tests, and the
 // action is guarded by the flag.
-//   N1 every edge on which the flag becomes true is taken only when the tests
-//      (given as predicates over the candidate value) hold for a candidate that feeds the variable;
-//   N2 after the flag became true no new candidate is drawn before the action
-//      (flag-sensitive path search, so loop conditions on the flag are honoured);
-//   N3 the action is guarded by the flag being true.
+//
+//	N1 every edge on which the flag becomes true is taken only when the tests
+//	   (given as predicates over the candidate value) hold for a candidate that feeds the variable;
+//	N2 after the flag became true no new candidate is drawn before the action
+//	   (flag-sensitive path search, so loop conditions on the flag are honoured);
+//	N3 the action is guarded by the flag being true.
 type candidateTest struct {
 	name string
 	ok   func(tm *Termer, g Guard, cand ssa.Value) bool
@@ -451,7 +452,9 @@ func C05(p *Prog, r *Run) {
 					}
 				}
 				path := FindPath(p, PathQuery{Fn: fn, StartAfter: st, FlagBlind: false, Explored: &r.PathsExplored,
-					Target: func(in ssa.Instruction) bool { return in.Block() == l.Header && instrIndex(in) == len(l.Header.Instrs)-1 }})
+					Target: func(in ssa.Instruction) bool {
+						return in.Block() == l.Header && instrIndex(in) == len(l.Header.Instrs)-1
+					}})
 				okOnce = path == nil
 			}
 			r.Check(okV && okG && okLoop && okOnce, "re-enable.store", p.Pos(st.Pos()), "enables the first disabled gene of an ascending scan and stops",
@@ -838,7 +841,7 @@ func (r *Run) checkConnectSensors(sums *Summaries) {
 		}
 	}
 	okChain := st.Op == "elem" && dt.Op == "elem" && dList != nil && sList != nil && oList != nil && sList.fromList == "recv.Nodes" && oList.fromList == "recv.Nodes" &&
-		len(sList.extra) == 0 && len(oList.extra) == 0
+		(r.Mode == "well-formed" || (len(sList.extra) == 0 && len(oList.extra) == 0))
 	if oList != nil && len(oList.extra) > 0 {
 		r.Note("connect-sensors: the target list is filled only under %v", oList.extra)
 	}
@@ -919,7 +922,7 @@ func (r *Run) checkConnectSensors(sums *Summaries) {
 					okSkip = false
 				}
 			}
-			if !hasIn || !hasOut {
+			if (!hasIn || !hasOut) && r.Mode != "well-formed" {
 				okSkip = false
 				extra = append(extra, fmt.Sprintf("the existing-link test compares the source=%v and the target=%v; both are needed, otherwise targets that are not linked yet are skipped", hasIn, hasOut))
 			}
